@@ -14,14 +14,21 @@ Outcome(c, r) ==
      (IF c.exc \in r.excs THEN {} ELSE {"exception"})
      \cup (IF WellFormed(c.post) /\ DictEq(c.post, r.post) THEN {} ELSE {"contents"})
      \cup (IF c.ret = r.ret THEN {} ELSE {"return"})
+\* Owner-level records ("owner" in the record): the TraitDict is the value of a Dict trait; pre / post are the contents of
+\* the owner's attribute and evs the <name>_items events the OWNER's handlers received.  stale = 1: the operation was
+\* applied to a former value of the attribute (detached by a reassignment): the attribute and its handlers must not notice.
+IsStale(c) == "stale" \in DOMAIN c /\ c.stale = 1
 Clauses(c) ==
+  IF IsStale(c) THEN (IF c.post = c.pre THEN {} ELSE {"detached-value-changed-the-attribute"})
+                     \cup (IF c.evs = <<>> THEN {} ELSE {"detached-value-notified-the-owner"})
+  ELSE
   LET r == Apply(c.op, c.pre, c.kvm, c.vvm, c.a, c.ps)
       kf == c.op = "setdefault" /\ KF14Guard(c.pre, c.kvm, c.vvm, c.a[1], c.a[2])
       o1 == Outcome(c, r)
       o2 == IF kf THEN Outcome(c, OpSetDefault_KF14(c.pre, c.kvm, c.vvm, c.a[1], c.a[2])) ELSE o1
   IN (IF o1 = {} THEN {} ELSE IF kf /\ o2 = {} THEN {"KF14"} ELSE o1)
-     \cup (IF "suite" \in DOMAIN c \/ c.builtin = r.post THEN {} ELSE {"spec-vs-builtin-dict"})   \* (test-suite records carry no builtin twin)
-     \cup (IF (IF c.op \in {"construct", "copy"} THEN c.evs = <<>> ELSE EventsOK(c.pre, c.evs, c.post))
+     \cup (IF "suite" \in DOMAIN c \/ "owner" \in DOMAIN c \/ c.builtin = r.post THEN {} ELSE {"spec-vs-builtin-dict"})   \* (test-suite records carry no builtin twin)
+     \cup (IF (IF c.op \in {"construct", "copy", "assign"} THEN c.evs = <<>> ELSE EventsOK(c.pre, c.evs, c.post))
            THEN {} ELSE {"event-law"})
 Judge == i <= 0 \/ LET f == Clauses(Trace[i]) IN IF f = {} THEN TRUE ELSE PrintT(<<"REJECT", i, f>>)
 AllJudged == TLCGet("distinct") = N + NB + 1
